@@ -16,6 +16,7 @@ from collections import namedtuple
 from functools import lru_cache
 from itertools import islice, cycle, groupby, repeat
 import logging
+from math import ldexp
 from random import randint, shuffle
 from threading import Lock
 import socket
@@ -710,7 +711,12 @@ class ExponentialReconnectionPolicy(ReconnectionPolicy):
                 yield self.max_delay
             else:
                 try:
-                    yield self._add_jitter(min(self.base_delay * (2 ** i), self.max_delay))
+                    if isinstance(self.base_delay, float):
+                        # overflows only when the product does, not when 2 ** i alone does
+                        delay = ldexp(self.base_delay, i)
+                    else:
+                        delay = self.base_delay * (2 ** i)
+                    yield self._add_jitter(min(delay, self.max_delay))
                 except OverflowError:
                     overflowed = True
                     yield self.max_delay
